@@ -7,6 +7,7 @@ from sklearn.base import clone
 import blocks_common as B
 import common as C
 import verde as vd
+from props import large as L
 from moment import MomentGridder
 
 ID = "C06"
@@ -142,6 +143,16 @@ def cloud(rng, maxpts):
 
 
 def corpus():
+    return _corpus() + [L.case("predict_in_pieces", ["chain", 70001, 2, "float32"], "corpus-large-queries"),
+                       L.case("predict_in_pieces", ["chain3", 66000, 2, "float32"], "corpus-large-queries"),
+                       L.case("predict_in_pieces", ["chain", 65536, 3, "float64"], "corpus-large-queries"),
+                       L.case("predict_in_pieces", ["vector", 65537, 3, "float64"], "corpus-large-queries"),
+                       L.case("predict_in_pieces", ["vs2d", 65553, 4, "float64"], "corpus-large-queries"),
+                       L.case("predict_in_pieces", ["chain-f32data", 70001, 7, "float64"], "corpus-large-queries"), L.case("predict_in_pieces", ["chain-f32data", 65536, 8, "float64"], "corpus-large-queries"),
+                       L.case("vector_components", [1], "corpus-vector-of-splines"), L.case("vector_components", [2], "corpus-vector-of-splines")]
+
+
+def _corpus():
     es = [0.5, 1.5, 2.5, 3.5, 0.25, 3.75, 0.75, 2.25]
     ns = [0.5, 0.5, 1.5, 1.5, 0.25, 1.75, 0.75, 1.25]
     d1 = [1.0, 2.0, 3.0, 4.0, 5.0, 6.0, 8.0, -3.0]
@@ -361,6 +372,9 @@ def _probe_run(case):
 
 
 def impl(case):
+    if case["fn"] == "large":
+        r = C.call(L.run, case["args"])
+        return r if C.is_err(r) else ["large", r]
     if case["fn"] == "probe":
         r = C.call(_probe_run, case)
         return r if C.is_err(r) else ["probe", r]
@@ -430,6 +444,8 @@ def _near_tie(spec, coords, data=None, weights=None, q=None):
 
 
 def compare(case, io, mo):
+    if case["fn"] == "large":
+        return "diff:implementation failed: " + io[1] if C.is_err(io) else "ok"
     _F32[0] = case["kind"].endswith("-f32data")
     if case["op"] == "power_comb 0":
         return "diff:implementation failed: " + io[1] if C.is_err(io) else "ok"
@@ -473,6 +489,8 @@ def _close(a, b, tol=1e-7, scale=None):
 
 
 def oracle(case, io):
+    if case["fn"] == "large":
+        return (io[1] or None) if not C.is_err(io) else "failed on a large input: " + io[1]
     if case["fn"] == "probe":
         if C.is_err(io):
             return "a chain fitted with three coordinate arrays failed: " + io[1]
@@ -605,6 +623,8 @@ def oracle(case, io):
 
 
 def nontrivial(case, io):
+    if case["fn"] == "large":
+        return not C.is_err(io)
     if case["fn"] == "probe":
         return not C.is_err(io)
     return (not C.is_err(io)) and len(case["args"][0][1]) >= 2
